@@ -62,7 +62,7 @@ func noiseEngine(ctx context.Context, seed int64) *engine.Engine {
 func playNoiseWord(ctx context.Context, word []string, seed int64) (results []anaResult, noisy []bool, games []string, depths []uint, err error) {
 	e := noiseEngine(ctx, seed)
 	noise := uint(0)
-	option := uint(2) // the Depth option as last set
+	option := uint(2)    // the Depth option as last set
 	effective := uint(0) // the option takes effect at the next reset (a new game)
 	for i, op := range word {
 		switch {
